@@ -685,9 +685,8 @@ func (r *refEval) call(n *Node, e *env) []string {
 		vals := r.seq(n.A[0].P, e)
 		return r.product([][]string{vals, arrC}, func(v []string) []string {
 			r.sawList(v[1])
-			if strings.Contains(v[0], nul) {
-				giveUp("@in of a value that is itself a list")
-			}
+			// a value that is itself a list of two or more elements is no element of any list ("@in tests
+			// membership"): elements never contain the separator, so the loop below finds nothing
 			var out []string
 			for _, l := range decode(v[1]) {
 				found := false
